@@ -4,6 +4,6 @@ CONSTANTS
   Shape <- Shape_await_kill
   QCap = 2
   Dev = {}
-INVARIANTS AfterDeleted
+INVARIANTS AfterDeleted KillIsComplete
 PROPERTIES Returns LoopNeverStuck
 CHECK_DEADLOCK FALSE
